@@ -112,6 +112,7 @@ func (vc *VC) Oblige(kind string, name string, reach, goal *Term, pos string, de
 // ---------- executor ----------
 
 type Exec struct {
+	prunePaths bool
 	unknownPure bool
 	siteOrd     map[string]map[ssa.Instruction]int
 	eng    *Engine
